@@ -21,6 +21,8 @@ func checkC14(c *Ctx) {
 	c.Rule("C14-R4", "no store through a *Terminfo that may alias a registered database entry (stores only through fresh allocations or screen-owned copies)")
 	c.Rule("C14-R5", "LookupTerminfo: failure returns ErrTermNotFound; synthesised 256-colour/direct-colour strings are well-formed and denote SGR 38/48;5;n / 38/48;2;r;g;b; environment values compared with the documented constants")
 	c.Rule("C14-R6", "AddTerminfo stores under Name and every alias inside the database lock; the map has no other writer; every read is under the lock")
+	c.Rule("C14-R8", "TCELL_TRUECOLOR=disable switches direct colour off for the screen whatever the description contains: Init stores truecolor=false under that test, after every other store to it")
+	c.Expect("C14-R8", 1)
 	c.Rule("C14-R7", "the colour count agrees with the colour strings: SetFg, SetBg and SetFgBg of every entry select palette entry n for every n below the entry's colour count")
 	c.Expect("C14-R7", 60)
 	c.Expect("C14-R1", 49+30)
@@ -57,6 +59,7 @@ func checkC14(c *Ctx) {
 		c14Ownership(c, p)
 		c14Lookup(c, p)
 		c14Registry(c, p)
+		c14Disable(c, p)
 		c.extra["database"] = map[string]interface{}{"entries": len(db.entries), "tparm_call_sites": db.tparmN, "arity_table": db.arity, "prepared_arity": db.arityG}
 	}
 }
@@ -633,3 +636,54 @@ func c14Registry(c *Ctx, p *Prog) {
 
 var _ = ast.Inspect
 var _ = sort.Strings
+
+// c14Disable: the lookup only refrains from ADDING direct-colour strings when
+// TCELL_TRUECOLOR=disable; entries that ship their own (xterm-direct, kitty, …)
+// still have them, so the screen itself must honour the switch.
+func c14Disable(c *Ctx, p *Prog) {
+	fn := p.Fn("tcell:(*tScreen).Init")
+	if fn == nil {
+		c.Undecided("C14-R8", "(*tScreen).Init", "-", "not found")
+		return
+	}
+	var off *ssa.Store
+	for _, st := range storesTo(fn, "tcell.tScreen", "truecolor") {
+		if b, ok := constBool(st.Val); ok && !b {
+			for _, g := range rawGuardsAt(st.Block()) {
+				bo, ok := g.Cond.(*ssa.BinOp)
+				if !ok || !((bo.Op == token.EQL && g.Positive) || (bo.Op == token.NEQ && !g.Positive)) {
+					continue
+				}
+				call, ok := bo.X.(*ssa.Call)
+				lit, ok2 := constString(bo.Y)
+				if ok && ok2 && lit == "disable" && calleeName(&call.Call) == "os.Getenv" {
+					if env, ok := constString(call.Call.Args[0]); ok && env == "TCELL_TRUECOLOR" {
+						off = st
+					}
+				}
+			}
+		}
+	}
+	ok := off != nil
+	detail := "no store truecolor=false under os.Getenv(\"TCELL_TRUECOLOR\") == \"disable\""
+	if ok {
+		detail = "truecolor=false under the TCELL_TRUECOLOR test at " + p.pos(off.Pos())
+		for _, st := range storesTo(fn, "tcell.tScreen", "truecolor") {
+			if st != off && reachableAfter(off, st) {
+				ok = false
+				detail += "; overridden by a later store at " + p.pos(st.Pos())
+			}
+		}
+	}
+	// no other function switches it on
+	for _, f := range p.modFns {
+		if f.Pkg != p.Tcell || f == fn {
+			continue
+		}
+		for _, st := range storesTo(f, "tcell.tScreen", "truecolor") {
+			ok = false
+			detail += "; " + f.Name() + " also stores truecolor at " + p.pos(st.Pos())
+		}
+	}
+	c.Check(ok, "C14-R8", "Init:TCELL_TRUECOLOR=disable", p.pos(fn.Pos()), detail)
+}
